@@ -15,8 +15,9 @@
 (*        real ConsensusThreshold(t,true) and ConsensusKeys(round,t)       *)
 (*  {"ev":"C29", ...}  {"ev":"C11", ...}   see below                       *)
 (*                                                                         *)
-(* State: G (genesis set), H (the history as Membership.tla sees it),      *)
-(* memo (C11: answers already given for a timestamp).                      *)
+(* State: G (genesis set), H (the history as Membership.tla sees it), C     *)
+(* (custodian update ticks), memo (C11: answers already given for a        *)
+(* timestamp).                                                             *)
 (*                                                                         *)
 (* Mode "full": every observation equals the view Membership.tla computes. *)
 (* Mode "C10" / "C29" / "C11": only what the property states.              *)
@@ -26,23 +27,26 @@ EXTENDS TraceLib, Membership
 CONSTANTS Mode,       \* "full" | "C10" | "C29" | "C11"
           KnownIds    \* ids of the known findings listed in known_findings.json
 
-VARIABLES l, G, H, memo
-vars == <<l, G, H, memo>>
+VARIABLES l, G, H, C, memo
+vars == <<l, G, H, C, memo>>
 
 Ev == Trace[l]
 IsEvent(name) == l <= TraceLen /\ Ev.ev = name /\ l' = l + 1
 
+Restrict(f, S) == [x \in S |-> f[x]]
 Rec(r) == [n |-> r.n, ts |-> r.ts, st |-> r.st]
 RecSeq(s) == [i \in 1..Len(s) |-> Rec(s[i])]
-NoMemo == <<>>
+\* memo.m[t] / memo.c[t]: the membership / custodian answer already given for timestamp t
+NoMemo == [m |-> <<>>, c |-> <<>>]
 
-Init == l = 1 /\ G = {} /\ H = <<>> /\ memo = NoMemo
+Init == l = 1 /\ G = {} /\ H = <<>> /\ C = <<0>> /\ memo = NoMemo
 
 Reset ==
     /\ IsEvent("Reset")
     /\ G' = SeqToSet(Ev.gen)
     /\ H' = GenesisHist(SeqToSet(Ev.gen))
     /\ (Mode = "full" => RecSeq(Ev.hist) = H')
+    /\ C' = <<0>>
     /\ memo' = NoMemo
 
 \* A record reaches the ledger only when storage accepted it.  In full mode the list the node
@@ -51,7 +55,9 @@ AppendRec ==
     /\ IsEvent("Append")
     /\ H' = IF Ev.res = "ok" THEN InsertRec(H, Rec(Ev.rec)) ELSE H
     /\ (Mode = "full" => RecSeq(Ev.hist) = H')
-    /\ UNCHANGED <<G, memo>>
+    \* answers for timestamps after the record may change; answers for t <= rec.ts must not
+    /\ memo' = IF Ev.res = "ok" THEN [memo EXCEPT !.m = Restrict(memo.m, {t \in DOMAIN memo.m : t <= Ev.rec.ts})] ELSE memo
+    /\ UNCHANGED <<G, C>>
 
 (******************************** C10 ***********************************)
 \* Known finding C10-1 (DESIGN.md D4): round 0 of a pledging chain.  ConsensusKeys appends the
@@ -85,7 +91,7 @@ C10 ==
     /\ LET L == NodesAt(H, Ev.t)  rm == RemovingAt(H, Ev.t) IN
          /\ (Mode = "full" => C10Full(Ev, L, rm))
          /\ (Mode \in {"full", "C10"} => C10Monitor(Ev, L, rm))
-    /\ UNCHANGED <<G, H, memo>>
+    /\ UNCHANGED <<G, H, C, memo>>
 
 (******************************** C29 ***********************************)
 \* {"ev":"Elect","t":..,"res":[r per replica],"elect":[[node per operation] per replica],
@@ -121,13 +127,13 @@ ElectEv ==
     /\ IsEvent("Elect")
     /\ (Mode = "full" => ElectFull(Ev))
     /\ (Mode \in {"full", "C29"} => ElectMonitor(Ev))
-    /\ UNCHANGED <<G, H, memo>>
+    /\ UNCHANGED <<G, H, C, memo>>
 
 \* {"ev":"Hours","t":..,"accept":b,"pledge":b}: the two window functions themselves
 HoursEv ==
     /\ IsEvent("Hours")
     /\ (Mode = "full" => (Ev.accept = InAcceptWindow(Ev.t) /\ Ev.pledge = InPledgeWindow(Ev.t)))
-    /\ UNCHANGED <<G, H, memo>>
+    /\ UNCHANGED <<G, H, C, memo>>
 
 \* {"ev":"Valid","t":..,"pledge":r,"remove":r,"cancel":r,"accept":r,"removed":n,"by_remove":n,...}
 \* snapshot-level validators of the four operations: accepted only inside their windows
@@ -153,9 +159,47 @@ ValidEv ==
     /\ IsEvent("Valid")
     /\ (Mode = "full" => ValidFull(Ev))
     /\ (Mode \in {"full", "C29"} => ValidMonitor(Ev))
-    /\ UNCHANGED <<G, H, memo>>
+    /\ UNCHANGED <<G, H, C, memo>>
 
-Next == Reset \/ AppendRec \/ C10 \/ ElectEv \/ HoursEv \/ ValidEv
+(******************************** C11 ***********************************)
+\* {"ev":"Cust","ts":..,"k":..,"res":r}: custodian update k written at tick ts
+CustEv ==
+    /\ IsEvent("Cust")
+    /\ C' = IF Ev.res = "ok" THEN Append(C, Ev.ts) ELSE C
+    /\ (Mode = "full" => (Ev.res = "ok" /\ Ev.k = Len(C)))
+    \* an update at ts is visible from t = ts on
+    /\ memo' = IF Ev.res = "ok" THEN [memo EXCEPT !.c = Restrict(memo.c, {t \in DOMAIN memo.c : t < Ev.ts})] ELSE memo
+    /\ UNCHANGED <<G, H>>
+
+\* {"ev":"Views","t":..,"cold":b,"res":r,"view":{list,acc,keys,thrF,thrN,pledging,electres,elect},
+\*  "custres":r,"cust":{k,ts,nodes}}: everything the node reports for timestamp t; cold = after a
+\* restart (new store object, new Node, empty caches)
+NormView(v) == [list |-> [i \in 1..Len(v.list) |-> [n |-> v.list[i].n, st |-> v.list[i].st, ci |-> v.list[i].ci]],
+                acc |-> v.acc, keys |-> v.keys, thrF |-> v.thrF, thrN |-> v.thrN, pledging |-> v.pledging,
+                electres |-> v.electres, elect |-> v.elect]
+NormCust(e) == [res |-> e.custres, k |-> e.cust.k, ts |-> e.cust.ts, nodes |-> e.cust.nodes]
+
+ViewsFull(e) ==
+    /\ e.res = "ok" /\ e.custres = "ok"
+    /\ NormView(e.view) = ViewOf(H, G, e.t)
+    /\ LET k == CustodianAt(C, e.t) IN
+         e.cust.k = k /\ (k > 0 => (e.cust.ts = C[k] /\ e.cust.nodes = 7))
+
+\* C11: the answer for t is the answer given before (whatever was appended after t, in whatever
+\* order the questions came, warm or cold)
+ViewsMonitor(e) ==
+    /\ (e.t \in DOMAIN memo.m => <<e.res, NormView(e.view)>> = memo.m[e.t])
+    /\ (e.t \in DOMAIN memo.c => NormCust(e) = memo.c[e.t])
+
+ViewsEv ==
+    /\ IsEvent("Views")
+    /\ (Mode = "full" => ViewsFull(Ev))
+    /\ (Mode \in {"full", "C11"} => ViewsMonitor(Ev))
+    /\ memo' = [m |-> IF Ev.t \in DOMAIN memo.m THEN memo.m ELSE memo.m @@ (Ev.t :> <<Ev.res, NormView(Ev.view)>>),
+                c |-> IF Ev.t \in DOMAIN memo.c THEN memo.c ELSE memo.c @@ (Ev.t :> NormCust(Ev))]
+    /\ UNCHANGED <<G, H, C>>
+
+Next == Reset \/ AppendRec \/ C10 \/ ElectEv \/ HoursEv \/ ValidEv \/ CustEv \/ ViewsEv
 
 Spec == Init /\ [][Next]_vars
 
